@@ -148,6 +148,18 @@ OPERATOR_SET = {
         "run-time x in {MIN,MIN+1,-1,0,1,MAX-1,MAX} + seeded: f_lit(x)=op(x,LIT) vs f_args(x,y)=op(x,y) with "
         "y=LIT at run time, const folding on/off, all four equal and equal to Rt (Corr.check_part). The "
         "wrapping/overflowing/checked/saturating run-time spec (Rt.rt_variant) is exploration-tied only.",
+    "structural part of the evaluator (evaluate / destructure_pattern), leg `aggr`, oracle + expected tuple, "
+    "no Coq model":
+        "every Expr arm (Var, Constant incl. other consts' members, Block with let/let-else/shadowing, "
+        "FunctionCall incl. generic const fn, Literal, Tuple, StructCtor with fields in all 6 orders and ..base, "
+        "EnumVariantCtor, MemberAccess chains and tuple index, FixedSizeArray items and [v; n], Snapshot, Desnap, "
+        "LogicalOperator, Match incl. nested variants / or-patterns / _, If incl. if-let) and every Pattern arm "
+        "(Otherwise, Literal, Variable, Struct in all 6 field permutations plain / renamed / with .. / nested, "
+        "Tuple, FixedSizeArray, EnumVariant with and without inner pattern), on felt252 u8 i16 u64 u128 u256 "
+        "i128; both directions (overflow inside an aggregate and a failing let-else must be diagnosed <=> the twin "
+        "panics). Explicit list of constructs accepted as not const-evaluable (a diagnostic on the const item or "
+        "on the const fn declaration is the expected answer, a correct value is accepted too): assignment to a "
+        "`let mut`, `loop`, `while`, a block without tail expression (unit `if` body).",
     "explored by the impl-level oracle only (no Coq model)":
         "u256 -> uN / felt252 TryInto, compound const expressions (tuples, structs, enums, if, match, &&, ||, "
         "let-destructuring) through the evaluator's interpreter, const fn calls",
